@@ -543,6 +543,10 @@ class Stage:
                     raise Exception("You attempted to set the value of a non-parameter. Did you mean ocp.set_initial()? Got " + str(parameter))
                 self._param_vals[parameter] = value
         for_all_primitives(parameter, value, action, "First argument to set_value must be a parameter or a simple concatenation of parameters", rhs_type=DM)
+        if self.master is not None and self.master.is_transcribed and hasattr(self._method, 'set_initial_all'):
+            # Guesses that are expressions (of time on a parametric horizon, of parameters) follow the new value
+            if any(isinstance(v, MX) and not v.is_constant() for v in self._initial.values()):
+                self._method.set_initial_all(self._augmented, self.master._method, self._initial)
 
 
     def set_initial(self, var, value, priority=False):
